@@ -231,6 +231,32 @@ func DriveC02(w *ev.Writer, o Opts) {
 			}
 			tableEvent(w, src, []*boc.Cell{c}, rng)
 		}
+		// a proof over a tree that holds exotic cells itself (library cells among the leaves): what is kept must keep its type
+		if i%2 == 1 {
+			tl := cells.RandTable(rng, 2+rng.Intn(20), 600)
+			nlib := 0
+			for k := 1; k < len(tl.Cells); k++ {
+				if len(tl.Cells[k].R) == 0 && (nlib == 0 || rng.Intn(2) == 0) {
+					tl.Cells[k].X = 2
+					tl.Cells[k].B = "00000010" + cells.RandBitsN(rng, 256)
+					nlib++
+				}
+			}
+			if lr, err := cells.Build(tl, true); err == nil && nlib > 0 {
+				tableEvent(w, "mem-lib", lr, rng)
+				for rep := 0; rep < 3; rep++ {
+					if pb, err := randomProof(lr[0], rng); err == nil {
+						if pr, err := boc.DeserializeBoc(pb); err != nil {
+							w.Emit(ev.M{"k": "Panic", "src": "proof-lib", "panic": "proof does not parse: " + err.Error()})
+						} else {
+							tableEvent(w, "proof-lib", pr, rng)
+						}
+					} else {
+						w.Emit(ev.M{"k": "Panic", "src": "proof-lib", "panic": err.Error()})
+					}
+				}
+			}
+		}
 		if pb, err := randomProof(roots[0], rng); err == nil {
 			pr, err := boc.DeserializeBoc(pb)
 			if err != nil {
